@@ -91,6 +91,11 @@ fn run_replay(entries: &[Entry], path: &std::path::Path) -> ! {
 }
 
 fn main() {
+    // anyhow captures a backtrace per error when RUST_BACKTRACE is set (12 us and a global lock
+    // per rejected packet); that is a property of the caller's environment, not of the stack
+    unsafe {
+        std::env::set_var("RUST_LIB_BACKTRACE", "0");
+    }
     let cli = vh::cli();
     c07::alloc::INSTALLED.store(true, std::sync::atomic::Ordering::Relaxed);
     oracle::install_hook();
@@ -127,6 +132,16 @@ fn main() {
     if is_child {
         driver::child_main(&entries, &jobs, &cli.rest);
     }
+    if std::env::var("C07_MEASURE_SEEDS").is_ok() {
+        for e in &entries {
+            for (n, b) in &e.seeds {
+                let _ = oracle::measure(e.run, b);
+                let m = oracle::measure(e.run, b);
+                println!("{}\t{}\tlen={}\tclass={}\tns={}\tbytes={}\tpanic={}", e.name, n, b.len(), m.class, m.ns, m.bytes, m.panic.is_some());
+            }
+        }
+        std::process::exit(0);
+    }
     if std::env::var("C07_LIST").is_ok() {
         for (j, job) in jobs.iter().enumerate() {
             println!("{j}\t{}\t{}\t{}", entries[job.entry].name, job.space.len(), job.space.describe());
@@ -158,6 +173,18 @@ fn main() {
             }
             None => missing.push(format!("{}: {} (not run)", entries[job.entry].name, job.space.describe())),
         }
+    }
+    if std::env::var("C07_TIMING").is_ok() {
+        let mut rows: Vec<(u64, String)> = jobs
+            .iter()
+            .enumerate()
+            .filter_map(|(j, job)| sweep.stats[j].as_ref().map(|s| (s.wall_ms, format!("{} | {} | n={}", entries[job.entry].name, job.space.describe(), s.evals))))
+            .collect();
+        rows.sort();
+        for (ms, d) in rows.iter().rev().take(40) {
+            eprintln!("{ms:>8} ms  {d}");
+        }
+        eprintln!("sum of job wall: {} ms", rows.iter().map(|r| r.0).sum::<u64>());
     }
     for (j, why) in &sweep.incomplete {
         missing.push(format!("{}: {} ({why})", entries[jobs[*j].entry].name, jobs[*j].space.describe()));
@@ -238,13 +265,15 @@ fn main() {
 
     // ---- violations -----------------------------------------------------------------------
     // per entry: one violation per (panic site), minimised; signatures carry no line numbers.
-    let shrink_budget = Duration::from_millis(if thorough { 3000 } else { 700 });
+    // evaluation-count budgets (not wall time) keep the minimised inputs, and so the signatures,
+    // deterministic
+    let shrink_evals = |e: &Entry| -> u64 { if e.cost_us > 100.0 { 4000 } else { 40_000 } };
     for (ei, st) in per_entry.iter().enumerate() {
         let e = &entries[ei];
         let mut seen: BTreeMap<String, usize> = BTreeMap::new();
         for (task, map) in [(false, &st.panics), (true, &st.task_panics)] {
             for (k, a) in map {
-                let min = if task { a.min_input.clone() } else { driver::shrink_panic(e, &a.min_input, k, shrink_budget) };
+                let min = if task { a.min_input.clone() } else { driver::shrink_panic(e, &a.min_input, k, shrink_evals(e)) };
                 let sig = sig_panic(e.name, k, min.len(), task);
                 if let Some(prev) = seen.get(&sig) {
                     if *prev <= min.len() {
@@ -273,19 +302,29 @@ fn main() {
             }
         }
         if st.alloc.count > 0 {
+            // smallest input that still breaks the bound, and the amplification as a power of two
+            let min = driver::shrink_while(&st.alloc.min_input, shrink_evals(e), |c| {
+                let m = oracle::measure(e.run, c);
+                m.panic.is_none() && m.bytes > oracle::alloc_limit(c.len(), e.alloc_base)
+            });
+            let m = oracle::measure(e.run, &min);
+            let per_byte = m.bytes / (min.len().max(1) as u64);
+            let bucket = if per_byte == 0 { 0 } else { 1u64 << (63 - per_byte.leading_zeros()) };
             rep.violation(Violation {
-                signature: format!("{};alloc;len={}", e.name, st.alloc.min_input.len()),
+                signature: format!("{};alloc;bytes_per_input_byte>={bucket};len={}", e.name, min.len()),
                 detail: format!(
-                    "{} allocated {} bytes for a {}-byte input (bound 64*len+{} = {}); {} inputs exceed the bound; input = {}",
+                    "{} allocated {} bytes for a {}-byte input (bound 64*len+{} = {}); {} inputs of the sweep exceed the bound, the largest case seen: {} bytes for {} input bytes; minimal input = {}",
                     e.name,
-                    st.alloc.value,
-                    st.alloc.min_input.len(),
+                    m.bytes,
+                    min.len(),
                     e.alloc_base,
-                    oracle::alloc_limit(st.alloc.min_input.len(), e.alloc_base),
+                    oracle::alloc_limit(min.len(), e.alloc_base),
                     st.alloc.count,
-                    hex(&st.alloc.min_input[..st.alloc.min_input.len().min(96)])
+                    st.max_alloc,
+                    st.max_alloc_len,
+                    if e.text { format!("{:?}", vh::truncate(&String::from_utf8_lossy(&min), 400)) } else { hex(&min[..min.len().min(96)]) }
                 ),
-                replay: replay_json(e.name, "alloc", &st.alloc.min_input),
+                replay: replay_json(e.name, "alloc", &min),
             });
         }
         if st.time.count > 0 {
